@@ -62,21 +62,22 @@ def export_behaviours(ctx, cfg, label, timeout, simulate=None, depth=None, worke
 
 
 OPNAMES = {0: "OpenBase", 1: "SetBalance", 2: "SetEnergy", 3: "SetMaster", 4: "SetCode", 5: "SetStorage", 7: "Delete",
-           8: "NewCheckpoint", 9: "RevertTo", 10: "Stage", 11: "Commit", 12: "Reopen"}
+           8: "NewCheckpoint", 9: "RevertTo", 10: "Stage", 11: "Commit", 12: "Reopen",
+           13: "AddLog", 14: "AddTransfer", 15: "AddRefund", 16: "Suicide"}
 
 
 def pretty(history, na=2, nk=2):
     out = []
-    cl = na * (6 + nk)
+    vl, cl = na * (5 + nk), na * (6 + nk)
     for e in history:
         s = "%s(%s)" % (OPNAMES.get(e[0], e[0]), ",".join(str(x) for x in e[1:4]))
         if e[0] in (0, 10):
-            s += " content=" + str(e[-cl:])
+            s += " content=" + str(e[4 + vl:4 + vl + cl])
         out.append(s)
     return out
 
 
-def replay_behaviours(ctx, binp, path, label, roots, stats, limit=0, timeout=3000):
+def replay_behaviours(ctx, binp, path, label, roots, stats, limit=0, timeout=3000, result_files=None):
     """Replays a behaviour file on the real State. roots: global content -> root map (bijection across all files)."""
     out = os.path.join(os.path.dirname(path), "result.json")
     argv = ["-mode", "replay", "-in", path, "-out", out, "-seed", str(ctx.seed)]
@@ -85,10 +86,12 @@ def replay_behaviours(ctx, binp, path, label, roots, stats, limit=0, timeout=300
     if driver(ctx, binp, argv, timeout, "statejournal-replay") is None:
         return
     res = json.load(open(out))
+    if result_files is not None:
+        result_files.append(out)
     for v in res["violations"] or []:
         rp = ctx.save_replay("behaviour-%s-%d-seed%d.json" % (label, v["behaviour"], ctx.seed),
                              {"type": "behaviour", "kind": v["kind"], "offending_index": v["step"], "what": v["what"],
-                              "cache": v["cache"], "rawWrites": v["rawWrites"], "history": v["history"],
+                              "cache": v["cache"], "mode": v["mode"], "history": v["history"],
                               "history_readable": pretty(v["history"])})
         ctx.report("replay:" + v["kind"],
                    "%s: real state.State deviates from StateJournal.tla at step %d of %s: %s" %
@@ -104,7 +107,8 @@ def replay_behaviours(ctx, binp, path, label, roots, stats, limit=0, timeout=300
             ctx.report("replay:root-equal-for-different-content", "root %s commits to two contents: %s / %s" % (r, inv[r], c), rp)
         roots[c] = r
         inv[r] = c
-    for k in ("behaviours_replayed", "steps", "stages", "reopens", "code_cache_flushes", "stage_hits_on_known_content"):
+    for k in ("behaviours_replayed", "steps", "stages", "reopens", "code_cache_flushes", "stage_hits_on_known_content",
+              "build_storage_trie_calls", "committed_leaf_checks", "side_journal_checks"):
         stats[k] = stats.get(k, 0) + res[k]
     ctx.log("replayed %s: %d behaviours, %d steps, %d stages, %d distinct roots, %d violations" %
             (label, res["behaviours_replayed"], res["steps"], res["stages"], res["distinct_roots"], len(res["violations"] or [])))
@@ -134,6 +138,24 @@ def trie_check(ctx, seqlen, persist_every, big, bigkeys, stats):
     stats["trie"] = res["counts"]
     stats["trie_distinct_contents"] = res["distinct_nontrivial_contents"]
     ctx.log("triecheck: %s" % res["counts"])
+    return res
+
+
+def states_check(ctx, result_files, stats):
+    """root = canonical MPT hash of the content, directly: triecheck recomputes every staged state root, every
+    BuildStorageTrie root and every committed account leaf of the replays from the predicted content alone."""
+    binp = ctx.build("triecheck")
+    out = os.path.join(ctx.tmp("states"), "result.json")
+    if driver(ctx, binp, ["-states", "-out", out] + result_files, 600, "triecheck-states") is None:
+        return
+    res = json.load(open(out))
+    for i, v in enumerate(res["violations"] or []):
+        rp = ctx.save_replay("states-%s-%d-seed%d.json" % (v["kind"], i, ctx.seed), dict(v, type="states"))
+        ctx.report("states:" + v["kind"], "the real %s is not the canonical Merkle-Patricia hash/encoding of the content %s: independent "
+                   "encoder says %s, real code produced %s" % (v["kind"], v["content"], v.get("want"), v.get("got")), rp)
+    stats["states"] = res["counts"]
+    stats["states_distinct_contents"] = res["distinct_state_contents"]
+    ctx.log("triecheck -states: %s" % res["counts"])
     return res
 
 
@@ -216,12 +238,9 @@ def validate(ctx, events, stats_per_run, label, how, cfg="Trace_StateJournal.cfg
 
 def binding_demo(ctx, binp):
     """A recorded trace with one logged read corrupted, and one with an event deleted, must be rejected."""
-    events, stats, how = record(ctx, binp, 1, 120, "demo", seed_offset=17)
+    events, stats, how = record(ctx, binp, 1, 80, "demo", seed_offset=17)
     if events is None:
         raise Infra("no trace for the binding demonstration")
-    accepted, hwm, ln, r = ctx.validate_trace(SUB, "Trace_StateJournal", _write(ctx, "demo-orig", events), timeout=600)
-    if not accepted:
-        return False          # the unchanged trace is rejected: the caller's main validation will report it
     # (a) a logged balance in the last third of the trace is off by one
     cand = [i for i, e in enumerate(events) if e.get("rd") and i > 2 * len(events) // 3]
     i = cand[len(cand) // 2]
@@ -236,6 +255,8 @@ def binding_demo(ctx, binp):
         accepted, hwm, ln, r = ctx.validate_trace(SUB, "Trace_StateJournal", _write(ctx, "demo-" + name, evs), timeout=600)
         if accepted:
             raise Infra("binding demonstration failed: the %s trace was accepted by Trace_StateJournal" % name)
+        if at is not None and hwm < at:
+            return False      # the unchanged prefix is rejected already: the caller's main validation will report it
         if at is not None and hwm != at:
             raise Infra("binding demonstration: %s trace rejected at line %d, expected %d" % (name, hwm, at))
     ctx.cov["binding_demo"] = ("a recorded trace with one logged balance changed (rejected exactly at that event) and one with a "
